@@ -292,6 +292,16 @@ func runTwins(t *testing.T, em *drv.Emitter, w *world, h drv.History, reruns int
 	if delay {
 		time.Sleep(1100 * time.Millisecond)
 	}
+	// an anchored world: the reference (and its re-runs) ran before the boundary of the world, the perturbed twin runs after it
+	clock := "n/a"
+	if !w.boundary.IsZero() {
+		clock = "straddled"
+		if time.Now().After(w.boundary) {
+			clock = "late" // the reference was not finished before the boundary: the twins do not straddle it
+		} else {
+			time.Sleep(time.Until(w.boundary) + 1500*time.Millisecond)
+		}
+	}
 	savedEnv := map[string]*string{}
 	setenv := func(k string, v *string) {
 		if _, ok := savedEnv[k]; !ok {
@@ -353,7 +363,7 @@ func runTwins(t *testing.T, em *drv.Emitter, w *world, h drv.History, reruns int
 	}
 	// emit
 	em.Emit(map[string]any{"h": h.H, "i": 0, "act": "Init", "args": map[string]any{"scn": ia.Scn, "start": int(ia.Start), "world": ia.World}, "res": "ok",
-		"whash": w.hash, "height": int(ia.Start), "delayed": delay, "reruns": reruns})
+		"whash": w.hash, "height": int(ia.Start), "delayed": delay, "reruns": reruns, "clock": clock})
 	bi = 0
 	for i, st := range h.Steps[1:] {
 		si := i + 1
